@@ -54,6 +54,9 @@ func (m *TapeManager) GetWriter() (config.DriveWriterConfig, error) {
 		overwrite,
 	)
 	if err != nil {
+		// Nothing has been opened, so there is nothing to close which would release the drive later
+		m.physicalLock.Unlock()
+
 		return config.DriveWriterConfig{}, err
 	}
 
@@ -98,6 +101,9 @@ func (m *TapeManager) openOrReuseReader() error {
 
 	r, rr, err := OpenTapeReadOnly(m.drive)
 	if err != nil {
+		// Nothing has been opened, so there is nothing to close which would release the drive later
+		m.physicalLock.Unlock()
+
 		return err
 	}
 
